@@ -402,3 +402,41 @@ def mutate(draw, s):
                 q[i][0], q[j][0] = parts[j][0], parts[i][0]
                 return "slots", set_at(s, p, ["compose", q])
     return None, s
+
+
+def unify_rotate_counts(s):
+    """the same script with every rotate count brought to the width of the rotated operand (constants re-typed, other counts
+    zero-extended or truncated): an intervention that removes exactly the ingredient of the open rotate-merge finding"""
+    if not isinstance(s, list) or not s:
+        return s
+    k = s[0]
+    if k == "op":
+        args = [unify_rotate_counts(a) for a in s[2]]
+        if s[1] in ("<<<", ">>>") and len(args) == 2:
+            w, cw = swidth(args[0]), swidth(args[1])
+            if cw != w:
+                c = args[1]
+                if c[0] == "int":
+                    c = ["int", w, c[2] & ((1 << w) - 1)]
+                elif cw < w:
+                    slots, pos = [[c, 0, cw]], cw
+                    while pos < w:
+                        ch = [x for x in (64, 32, 16, 8, 1) if pos + x <= w][0]
+                        slots.append([["int", ch, 0], pos, pos + ch])
+                        pos += ch
+                    c = ["compose", slots]
+                elif cw > w:
+                    c = ["slice", c, 0, w]
+                args = [args[0], c]
+        return ["op", s[1], args]
+    if k == "mem":
+        return ["mem", unify_rotate_counts(s[1]), s[2], unify_rotate_counts(s[3]) if s[3] is not None else None]
+    if k == "cond":
+        return ["cond", unify_rotate_counts(s[1]), unify_rotate_counts(s[2]), unify_rotate_counts(s[3])]
+    if k == "slice":
+        return ["slice", unify_rotate_counts(s[1]), s[2], s[3]]
+    if k == "compose":
+        return ["compose", [[unify_rotate_counts(x), a, b] for x, a, b in s[1]]]
+    return s
+
+
